@@ -99,7 +99,7 @@ pub fn tape_checks(ctx: &Ctx) -> Vec<(&'static str, Box<CheckFn<'_>>)> {
 		(
 			"max-len",
 			Box::new(move |g: &mut Gen, stats: &mut Stats| {
-				let e = *g.pick(&mels);
+				let e = pick_entry(g, &mels);
 				let mut cfg = GenCfg { maximize: !g.chance(64), ..GenCfg::default() };
 				let v = gen_val(&e.ty, g, &mut cfg);
 				check_lengths(e, &v, stats)
@@ -108,7 +108,7 @@ pub fn tape_checks(ctx: &Ctx) -> Vec<(&'static str, Box<CheckFn<'_>>)> {
 		(
 			"fixed-size",
 			Box::new(move |g: &mut Gen, stats: &mut Stats| {
-				let e = *g.pick(&fixed);
+				let e = pick_entry(g, &fixed);
 				let mut cfg = GenCfg::default();
 				let v = gen_val(&e.ty, g, &mut cfg);
 				check_lengths(e, &v, stats)
